@@ -142,6 +142,22 @@ def case_fs(idx, rng, tier, res):
             d_pkg = os.path.join(d, pkgname)
             with open(os.path.join(d_pkg, '__init__.py'), 'w') as f:
                 f.write('')
+            if rng.random() < 0.5:
+                # a nested package: the searcher is bound to outer.inner, the files live in inner; the
+                # enclosing package may hold a same-named file that must not be looked at
+                outer_dir = d_pkg
+                d_pkg = os.path.join(d_pkg, 'inner')
+                os.mkdir(d_pkg)
+                with open(os.path.join(d_pkg, '__init__.py'), 'w') as f:
+                    f.write('')
+                if rng.random() < 0.6:
+                    decoy = os.path.join(outer_dir, name + '.py')
+                    with open(decoy, 'w') as f:
+                        f.write('x')
+                    t_ = src_mtime + rng.choice([-1000, 1000])
+                    os.utime(decoy, (max(0, t_), max(0, t_)))
+                pkgname += '.inner'
+                res.count('nested_package_searchers')
             d_files = d_pkg
         else:
             d_files = d
@@ -192,6 +208,7 @@ def case_fs(idx, rng, tier, res):
             if kind == 'pkg':
                 sys.path.remove(d)
                 sys.modules.pop(pkgname, None)
+                sys.modules.pop(pkgname.split('.')[0], None)
         if kind == 'stub':
             want = 'notmodified' if name in stubs else 'notfound'
         elif rebuild:
